@@ -185,6 +185,9 @@ class Ed25519Blake2bPrivateKey(IPrivateKey):
         Raises:
             ValueError: If key bytes are not valid
         """
+        # The underlying library also accepts 64 bytes (private key || unchecked public key)
+        if len(key_bytes) != cls.Length():
+            raise ValueError("Invalid private key bytes")
         try:
             return cls(ed25519_blake2b.SigningKey(key_bytes))
         except ValueError as ex:
